@@ -61,7 +61,19 @@ type Script struct {
 	Spell int `json:"spell,omitempty"`
 }
 
-var callMethods = []string{"ping", "tools/list", "prompts/list", "resources/list", "tools/call:fast", "tools/call:park", "tools/call:park", "resources/read", "prompts/get", "logging/setLevel", "initialize", "completion/complete"}
+// acme/echo is a method of the application's own, registered with mcp.AddReceivingCustomMethod: a known method
+// like any other, on every transport.
+type acmeParams struct {
+	mcp.ParamsBase
+	Q string `json:"q"`
+}
+
+type acmeResult struct {
+	mcp.ResultBase
+	A string `json:"a"`
+}
+
+var callMethods = []string{"acme/echo", "ping", "tools/list", "prompts/list", "resources/list", "tools/call:fast", "tools/call:park", "tools/call:park", "resources/read", "prompts/get", "logging/setLevel", "initialize", "completion/complete"}
 var notifMethods = []string{"notifications/initialized", "notifications/progress", "notifications/roots/list_changed", "notifications/cancelled"}
 var unknownMethods = []string{"foo/bar", "", "tools/unknown", "PING", "notifications/unknown"}
 
@@ -183,6 +195,8 @@ func (e Env) validParams() string {
 		return `{"progressToken":"t","progress":1}`
 	case "notifications/cancelled":
 		return `{"requestId":424242}`
+	case "acme/echo":
+		return `{"q":"x"}`
 	}
 	return `{}`
 }
@@ -203,6 +217,8 @@ func (e Env) wrongParams() string {
 		return `{"progressToken":"t","progress":"much"}`
 	case "notifications/cancelled":
 		return `{"requestId":{"a":1}}`
+	case "acme/echo":
+		return `{"q":7}`
 	}
 	return `"a string"`
 }
@@ -392,6 +408,15 @@ func newServer(g *gates) *mcp.Server {
 			}
 		},
 	})
+	if err := mcp.AddReceivingCustomMethod(server, "acme/echo", func(_ context.Context, _ *mcp.ServerSession, p *acmeParams) (*acmeResult, error) {
+		q := ""
+		if p != nil {
+			q = p.Q
+		}
+		return &acmeResult{A: "echo:" + q}, nil
+	}); err != nil {
+		panic(err)
+	}
 	mcp.AddTool(server, &mcp.Tool{Name: "fast"}, func(ctx context.Context, req *mcp.CallToolRequest, in map[string]any) (*mcp.CallToolResult, any, error) {
 		return &mcp.CallToolResult{Content: []mcp.Content{&mcp.TextContent{Text: "fast"}}}, nil, nil
 	})
